@@ -4,9 +4,14 @@
 //!
 //! Case line:  <label> <salt> <pool_deposit> <key_deposit> C <certs> W <withdrawals> P <proposals> I <inputs> O <outputs> D <donation>
 //!   certs       = ~ | n { <cddl tag 0..18>[/<cred>/<pool>/<var>] <coin | ~> <script 0|1> }*
-//!   withdrawals = ~ | n { <script 0|1>[/<account>] <coin> }*
+//!   withdrawals = ~ | n { <script 0|1>[/<credential>[/<network>]] <coin> }*     (network defaults to credential % 2)
 //!   proposals   = ~ | n { <deposit>[/<action>/<return address>] }*
 //!   inputs / outputs = n { <coin> }*        donation = ~ | coin
+//!   optionally, after the donation:  H n { sc<k> | sC<k> | rc | sw<k> | sW<k> | rw }*   a HISTORY applied to the transaction
+//!   builders before the final setters of the case: deprecated set_certs / set_certs_builder / remove_certs and the same for
+//!   withdrawals, with the stale collection number k (stale_certs / stale_wdrl below).  With a history, an absent collection
+//!   is finally removed (remove_certs / remove_withdrawals).  Setters replace (coq/Deposits/History.v): the observation of a
+//!   case with a history is the observation of the case, so the driver ignores the section.
 //! A proposal's <action> selects the governance action: shape = action % 14 over the seven kinds (info, no confidence,
 //! hard fork, new constitution, parameter change, treasury withdrawals, update committee) x prior action id x policy
 //! hash, content injective in <action>; the model knows no kind (the deposit is kind-independent).
@@ -180,9 +185,10 @@ fn plutus_witness(salt: u64, i: usize, tag: &RedeemerTag) -> PlutusWitness {
 struct Case {
     salt: u64, pool: BigNum, key: BigNum,
     certs: Option<Vec<(u32, Option<BigNum>, bool, Id)>>,
-    wdrl: Option<Vec<(bool, usize, BigNum)>>,
+    wdrl: Option<Vec<(bool, usize, usize, BigNum)>>,
     props: Option<Vec<(BigNum, usize, usize)>>,
     ins: Vec<BigNum>, outs: Vec<BigNum>, donation: Option<BigNum>,
+    hist: Vec<String>,
 }
 
 /// "x" or "x/a/b/..": the head and the identities after it
@@ -212,8 +218,8 @@ fn parse(toks: &[String]) -> Case {
     p.expect("W");
     let wdrl = p.count().map(|n| (0..n).map(|i| {
         let (s, ids) = split_ids(p.next());
-        let acct = match ids.len() { 0 => i, 1 => ids[0], _ => panic!("case syntax: withdrawal identity") };
-        (s == "1", acct, bn(p.next())) }).collect());
+        let (acct, net) = match ids.len() { 0 => (i, i % 2), 1 => (ids[0], ids[0] % 2), 2 => (ids[0], ids[1]), _ => panic!("case syntax: withdrawal identity") };
+        (s == "1", acct, net, bn(p.next())) }).collect());
     p.expect("P");
     let props = p.count().map(|n| (0..n).map(|i| {
         let (d, ids) = split_ids(p.next());
@@ -225,7 +231,9 @@ fn parse(toks: &[String]) -> Case {
     let outs = (0..p.count().unwrap()).map(|_| bn(p.next())).collect();
     p.expect("D");
     let donation = p.opt_bn();
-    Case { salt, pool, key, certs, wdrl, props, ins, outs, donation }
+    let mut hist = vec![];
+    if p.i < p.t.len() { p.expect("H"); let n = p.count().unwrap(); for _ in 0..n { hist.push(p.next().to_string()); } }
+    Case { salt, pool, key, certs, wdrl, props, ins, outs, donation, hist }
 }
 
 fn sc(r: Result<BigNum, JsError>) -> String { match r { Ok(v) => v.to_str(), Err(_) => "err".into() } }
@@ -255,13 +263,49 @@ fn new_tx_builder(c: &Case) -> TransactionBuilder {
     tb
 }
 
+/// stale collection number k of a history: certificates / withdrawals that carry deposits, refunds and amounts
+fn stale_certs(salt: u64, k: usize, with_script: bool) -> Vec<Certificate> {
+    vec![
+        mk_cert(8, Some(BigNum::from(2_500_000u64 + k as u64)), with_script && k % 2 == 1, salt, Id { cred: k, pool: 0, var: 0 }),
+        mk_cert(16, Some(BigNum::from(400_000_000u64 + k as u64)), false, salt, Id { cred: k, pool: 0, var: 4 }),
+        mk_cert(3, None, false, salt, Id { cred: k, pool: k, var: k }),
+    ]
+}
+fn stale_wdrl(salt: u64, k: usize, with_script: bool) -> Vec<(RewardAddress, BigNum)> {
+    vec![
+        (RewardAddress::new((k % 2) as u8, &cred(with_script && k % 2 == 1, salt, k, 16)), BigNum::from(3_000_000u64 + k as u64)),
+        (RewardAddress::new(0, &cred(false, salt, k + 1, 16)), BigNum::from(4_000_000u64 + k as u64)),
+    ]
+}
+/// one step of a history; errors of the deprecated setters are ignored (they leave the builder as it was)
+fn apply_history(tb: &mut TransactionBuilder, salt: u64, op: &str) {
+    let k: usize = op[2.min(op.len())..].parse().unwrap_or(0);
+    match &op[..2] {
+        "sc" => { let mut c = Certificates::new(); for x in stale_certs(salt, k, k % 3 == 2) { c.add(&x); } let _ = tb.set_certs(&c); }
+        "sC" => {
+            let mut b = CertificatesBuilder::new();
+            for (i, x) in stale_certs(salt, k, true).iter().enumerate() { if b.add(x).is_err() { let _ = b.add_with_native_script(x, &native_source(salt, 3000 + i)); } }
+            tb.set_certs_builder(&b);
+        }
+        "rc" => tb.remove_certs(),
+        "sw" => { let mut w = Withdrawals::new(); for (a, v) in stale_wdrl(salt, k, k % 3 == 2) { w.insert(&a, &v); } let _ = tb.set_withdrawals(&w); }
+        "sW" => {
+            let mut b = WithdrawalsBuilder::new();
+            for (i, (a, v)) in stale_wdrl(salt, k, true).iter().enumerate() { if b.add(a, v).is_err() { b.add_with_native_script(a, v, &native_source(salt, 4000 + i)).unwrap(); } }
+            tb.set_withdrawals_builder(&b);
+        }
+        "rw" => tb.remove_withdrawals(),
+        _ => panic!("case syntax: history"),
+    }
+}
+
 fn exec(toks: &[String]) -> String {
     let c = parse(toks);
     // the items themselves
     let certs: Option<Vec<Certificate>> = c.certs.as_ref().map(|v| v.iter()
         .map(|(tag, coin, s, id)| mk_cert(*tag, coin.clone(), *s, c.salt, *id)).collect());
     let wdrl: Option<Vec<(RewardAddress, BigNum)>> = c.wdrl.as_ref().map(|v| v.iter()
-        .map(|(s, acct, coin)| (RewardAddress::new((*acct % 2) as u8, &cred(*s, c.salt, *acct, 16)), coin.clone())).collect());
+        .map(|(s, acct, net, coin)| (RewardAddress::new(*net as u8, &cred(*s, c.salt, *acct, 16)), coin.clone())).collect());
     let props: Option<Vec<VotingProposal>> = c.props.as_ref().map(|v| v.iter()
         .map(|(d, act, ret)| mk_proposal(d, c.salt, *act, *ret)).collect());
 
@@ -323,8 +367,9 @@ fn exec(toks: &[String]) -> String {
     }
 
     let mut tb = new_tx_builder(&c);
-    if certs.is_some() { tb.set_certs_builder(&cb); }
-    if wdrl.is_some() { tb.set_withdrawals_builder(&wb); }
+    for op in &c.hist { apply_history(&mut tb, c.salt, op); }
+    if certs.is_some() { tb.set_certs_builder(&cb); } else if !c.hist.is_empty() { tb.remove_certs(); }
+    if wdrl.is_some() { tb.set_withdrawals_builder(&wb); } else if !c.hist.is_empty() { tb.remove_withdrawals(); }
     if props.is_some() { tb.set_voting_proposal_builder(&pb); }
     let bd = sc(tb.get_deposit());
     let bi = sv(tb.get_implicit_input());
@@ -339,8 +384,9 @@ fn exec(toks: &[String]) -> String {
 
     // (c) the deprecated setters taking the plain collections
     let mut tb2 = new_tx_builder(&c);
-    let r1 = if certs.is_some() { tb2.set_certs(&certs_coll) } else { Ok(()) };
-    let r2 = if wdrl.is_some() { tb2.set_withdrawals(&wdrl_coll) } else { Ok(()) };
+    for op in &c.hist { apply_history(&mut tb2, c.salt, op); }
+    let r1 = if certs.is_some() { tb2.set_certs(&certs_coll) } else { if !c.hist.is_empty() { tb2.remove_certs(); } Ok(()) };
+    let r2 = if wdrl.is_some() { tb2.set_withdrawals(&wdrl_coll) } else { if !c.hist.is_empty() { tb2.remove_withdrawals(); } Ok(()) };
     let (dd, di) = if r1.is_ok() && r2.is_ok() {
         if props.is_some() { tb2.set_voting_proposal_builder(&pb); }
         (sc(tb2.get_deposit()), sv(tb2.get_implicit_input()))
@@ -376,10 +422,11 @@ fn param(r: &mut Rng) -> u64 {
 struct G { salt: u64, pool: u64, key: u64, certs: Option<Vec<(u32, Option<u64>, bool)>>, wdrl: Option<Vec<(bool, u64)>>,
            props: Option<Vec<u64>>, ins: Vec<u64>, outs: Vec<u64>, donation: Option<u64>,
            // identities, parallel to certs / wdrl / props (None: item i has identity i everywhere)
-           cert_ids: Option<Vec<Id>>, wd_ids: Option<Vec<usize>>, prop_ids: Option<Vec<(usize, usize)>> }
+           cert_ids: Option<Vec<Id>>, wd_ids: Option<Vec<usize>>, wd_nets: Option<Vec<usize>>, prop_ids: Option<Vec<(usize, usize)>>,
+           hist: Vec<String> }
 impl G {
     fn empty(r: &mut Rng) -> G { G { salt: r.next() >> 1, pool: 500_000_000, key: 2_000_000, certs: None, wdrl: None, props: None, ins: vec![], outs: vec![], donation: None,
-                                     cert_ids: None, wd_ids: None, prop_ids: None } }
+                                     cert_ids: None, wd_ids: None, wd_nets: None, prop_ids: None, hist: vec![] } }
     fn line(&self, label: &str) -> String {
         let mut s = format!("{} {} {} {} C", label, self.salt, self.pool, self.key);
         match &self.certs { None => s.push_str(" ~"), Some(v) => { s.push_str(&format!(" {}", v.len()));
@@ -389,7 +436,7 @@ impl G {
         s.push_str(" W");
         match &self.wdrl { None => s.push_str(" ~"), Some(v) => { s.push_str(&format!(" {}", v.len()));
             for (i, (sc, c)) in v.iter().enumerate() {
-                let ids = match &self.wd_ids { Some(ids) => format!("/{}", ids[i]), None => String::new() };
+                let ids = match (&self.wd_ids, &self.wd_nets) { (Some(ids), Some(nets)) => format!("/{}/{}", ids[i], nets[i]), (Some(ids), None) => format!("/{}", ids[i]), _ => String::new() };
                 s.push_str(&format!(" {}{} {}", *sc as u8, ids, c)); } } }
         s.push_str(" P");
         match &self.props { None => s.push_str(" ~"), Some(v) => { s.push_str(&format!(" {}", v.len()));
@@ -399,6 +446,7 @@ impl G {
         s.push_str(&format!(" I {}", self.ins.len())); for c in &self.ins { s.push_str(&format!(" {}", c)); }
         s.push_str(&format!(" O {}", self.outs.len())); for c in &self.outs { s.push_str(&format!(" {}", c)); }
         s.push_str(" D "); s.push_str(&self.donation.map(|x| x.to_string()).unwrap_or("~".into()));
+        if !self.hist.is_empty() { s.push_str(&format!(" H {}", self.hist.len())); for h in &self.hist { s.push(' '); s.push_str(h); } }
         s
     }
 }
@@ -678,6 +726,7 @@ fn gen(dir: &str) {
             let k = r.below(6) as usize;
             g.wdrl = Some((0..k).map(|_| (r.chance(1, 6), coin(&mut r))).collect());
             g.wd_ids = Some((0..k).map(|_| r.below(3) as usize).collect());
+            if r.chance(1, 2) { g.wd_nets = Some((0..k).map(|_| *r.pick(&[0usize, 1, 1, 7])).collect()); }
         }
         // proposals: action / return address / deposit from small pools: equal ones are merged, near-equal ones are not
         if r.chance(2, 3) {
@@ -767,6 +816,48 @@ fn gen(dir: &str) {
             if r.chance(1, 4) { g.outs = vec![coin(&mut r)]; }
             emit(&mut out, g.line(&format!("action{}", shape)));
         }
+    }
+    // 11. reward accounts drawn from a small pool of credentials x {key, script} x networks {0, 1, other}: the same credential on
+    //     two networks is two accounts (both kept, by the body map, the builder and the body the builder emits); the same account
+    //     twice is a replacement
+    for n in 0..(120 * scale) {
+        let mut g = G::empty(&mut r);
+        g.pool = param(&mut r); g.key = param(&mut r);
+        let edge = n % 5 == 0;
+        let mut coin = |r: &mut Rng| if edge { r.u64_edge() } else { match r.below(4) { 0 => 0, 1 => 2_000_000, _ => 1 + r.below(900_000_000) } };
+        let k = 2 + r.below(5) as usize;
+        let c0 = r.below(3) as usize;
+        g.wdrl = Some((0..k).map(|_| (r.chance(1, 5), coin(&mut r))).collect());
+        g.wd_ids = Some((0..k).map(|_| if r.chance(2, 3) { c0 } else { r.below(3) as usize }).collect());
+        g.wd_nets = Some((0..k).map(|_| *r.pick(&[0usize, 1, 0, 1, 5, 15])).collect());
+        if r.chance(1, 3) { let m = r.below(4) as usize; g.certs = Some((0..m).map(|_| rand_cert(&mut r, &mut coin, 10)).collect()); }
+        if r.chance(1, 4) { g.props = Some(vec![coin(&mut r)]); }
+        if r.chance(1, 3) { g.ins = vec![coin(&mut r)]; }
+        emit(&mut out, g.line("wd-net"));
+    }
+    // 12. histories on one builder: one to four earlier set / remove operations with stale collections (deprecated setters,
+    //     sub-builder setters, removers, for certificates and withdrawals), then the final setters of a random case
+    //     (an absent collection is removed): setters replace, nothing of the history may be left in any figure
+    for n in 0..(150 * scale) {
+        let mut g = G::empty(&mut r);
+        g.pool = param(&mut r).min(1 << 40); g.key = param(&mut r).min(1 << 40);
+        let mut coin = |r: &mut Rng| match r.below(6) { 0 => 0, 1 => 2_000_000, 2 => 500_000_000, _ => r.below(1_000_000_000_000) };
+        let script_pct = if r.chance(2, 3) { 0 } else { 25 };
+        if r.chance(3, 4) { let m = r.below(6) as usize; g.certs = Some((0..m).map(|_| rand_cert(&mut r, &mut coin, script_pct)).collect());
+                            g.cert_ids = Some((0..m).map(|_| Id { cred: r.below(4) as usize, pool: r.below(4) as usize, var: r.below(6) as usize }).collect()); }
+        if r.chance(3, 4) { let m = r.below(4) as usize; g.wdrl = Some((0..m).map(|_| (r.chance(script_pct, 100), coin(&mut r))).collect());
+                            g.wd_ids = Some((0..m).map(|_| r.below(4) as usize).collect()); }
+        if r.chance(1, 2) { let m = r.below(3) as usize; g.props = Some((0..m).map(|_| coin(&mut r)).collect()); }
+        g.ins = (0..r.below(3)).map(|_| coin(&mut r)).collect();
+        g.outs = (0..r.below(3)).map(|_| coin(&mut r)).collect();
+        let ops = ["sc", "sC", "rc", "sw", "sW", "rw"];
+        let len = 1 + r.below(4) as usize;
+        for j in 0..len {
+            // the last steps are setters more often than removers, so that something stale is there to be replaced
+            let op = if j + 1 == len && n % 2 == 0 { *r.pick(&["sw", "sW", "sc", "sC"]) } else { *r.pick(&ops) };
+            g.hist.push(if op.starts_with('s') { format!("{}{}", op, r.below(6)) } else { op.to_string() });
+        }
+        emit(&mut out, g.line("history"));
     }
     out.finish();
 }
